@@ -138,6 +138,23 @@ DESC = {
  "C17-r4m2": ("All specialised to two levels; `break` in the leaf arm leaves the switch, not the loop", "errors in two or more fields, the consumer stopping at a scalar-field error that is not the last"),
  "C19-r4m1": ("join detection through errors.As", "a leaf that wraps a join with %w: its inner errors are yielded instead of the leaf"),
  "C19-r4m2": ("cycle guard hashing every visited error in a map", "a leaf of a non-comparable dynamic type (slice-typed or slice-holding error): panic"),
+ # ---- fifth round: same confinement, agents told what round 4 had tried ----
+ "C01-r5m1": ("node.contains binary-searches the schemes with a length-first comparator; add keeps them lexicographic", "one host under two schemes where the longer scheme sorts first (capacitor / http)"),
+ "C01-r5m2": ("fastParseHost rejects labels that start or end with a hyphen", "an origin like https://foo-.example.com under a `*.` pattern"),
+ "C03-r5m1": ("node.add: append + sort of the schemes only", "same host, two schemes, the smaller scheme inserted later, different port sets"),
+ "C03-r5m2": ("Tree.Contains runs the wildcard test before the host-exhausted test", "a `*.` pattern and a bracketed Origin whose host is `.` + base: https://[.example.com]"),
+ "C06-r5m1": ("IPv6 bracket decision scans the node's own chunk", "two IPv6 literals that share a tail and differ in (or extend) the first group"),
+ "C06-r5m2": ("Contains keeps only the LAST node's wildcard verdict", "a discrete host listed before a covering wildcard; origin extending the discrete host"),
+ "C13-r5m1": ("rejected patterns are echoed clipped to 1024 bytes in the error's Value", "a rejected pattern longer than 1 KiB"),
+ "C13-r5m2": ("the `null` special case folded into the scheme switch", "a documented-form pattern whose scheme is spelled null: null://example.com"),
+ "C14-r5m1": ("a field line without any name resets the position of the last name seen", "three or more field lines, a middle one made of empty elements only, unsorted/repeated names across it"),
+ "C14-r5m2": ("early `line too long` rejection with an under-estimated bound for empty elements", "12+ two-byte whitespace-only empty elements in one line next to (nearly) all allowed names"),
+ "C15-r5m1": ("Contains follows the matching edge first and asks an ancestor's wildcard only when the first step fails", "an explicit host listed before a covering wildcard and an origin extending the explicit host"),
+ "C15-r5m2": ("SortedSet caches the joined list incrementally (wrong for middle insertions); Check short-circuits on equality with it", "three or more names listed so that one lands in the middle, debug off, ACRH mirroring the mis-ordered concatenation"),
+ "C17-r5m1": ("All delegates nested joins with `All(err)(yield); continue`, discarding the stop signal", "a nested join followed by a sibling, the consumer stopping inside the nested join: runtime panic"),
+ "C17-r5m2": ("headers.First guards `v == nil` instead of `len(v) == 0`", "a request header key present with a non-nil empty slice"),
+ "C19-r5m1": ("cycle guard that is a visited set: a join value reachable along two paths is skipped the second time", "the same errors.Join value used twice in one tree"),
+ "C19-r5m2": ("explicit stack whose frame pointer goes stale when append reallocates", "join nesting depth of 9 or more"),
 }
 
 
